@@ -172,7 +172,8 @@ def pull (parse : Bool → List Byte → ParseRes) : Nat → List Byte → List 
 
 /-- one line of standard output -/
 inductive Out where
-  | probe (status : Nat) (fields : List String) (offset : Nat)
+  | probe (status : Nat) (fields : List String) (offset : Nat) (nonblock : Bool)
+      -- `nonblock`: standard input was in non-blocking mode while the command ran
   | raw (bytes : List Byte)
   deriving Repr, DecidableEq
 
@@ -191,6 +192,7 @@ structure State where
   hitEof : Bool := false                -- some reader saw the end of the input
   fdFed : Bool := shared                -- the script is read from a descriptor (`FdReader2` + `Echo`)
   aborted : Bool := false               -- a nested read-eval loop (`eval`, `.`) hit a syntax error
+  nonblock : Bool := false              -- O_NONBLOCK of the open file description of standard input
   deriving Repr
 
 def State.stdin (s : State) : List Byte := if s.shared then s.inp else s.data
@@ -432,7 +434,7 @@ def execCat (s : State) (here : Option (List Char)) : State :=
 
 /-- the utilities the scripts use (`a1`…`a3` are harness built-ins named like the aliases) -/
 inductive Util where
-  | probe | aliasName | st | colon | read | alias | unalias | set | cat | unknown
+  | probe | aliasName | st | colon | read | alias | unalias | set | cat | echo | unknown
   deriving DecidableEq, Repr
 
 def classify (name : String) : Util :=
@@ -445,6 +447,7 @@ def classify (name : String) : Util :=
   else if name == "unalias" then .unalias
   else if name == "set" then .set
   else if name == "cat" then .cat
+  else if name == "echo" then .echo
   else .unknown
 
 def execSet (s : State) (args : List String) : State :=
@@ -468,8 +471,9 @@ def execUnalias (s : State) (args : List String) : State :=
 def execUtil (s : State) (u : Util) (name : String) (args : List String)
     (here : Option (List Char)) : State :=
   match u with
-  | .probe => { s with out := Out.probe s.status args s.pos :: s.out }
-  | .aliasName => { s with out := Out.probe s.status ["@" ++ name] s.pos :: s.out }
+  | .probe => { s with out := Out.probe s.status args s.pos s.nonblock :: s.out }
+  | .aliasName => { s with out := Out.probe s.status ["@" ++ name] s.pos s.nonblock :: s.out }
+  | .echo => { s with out := Out.raw ((" ".intercalate args).toUTF8.toList ++ [NL]) :: s.out, status := 0 }
   | .st => { s with status := (args.head?.bind String.toNat?).getD 0 }
   | .colon => { s with status := 0 }
   | .read => execRead s (parseReadArgs args false 10).2.1 (parseReadArgs args false 10).1
@@ -648,6 +652,19 @@ def initState (shared : Bool) (script data : List Byte) : State :=
     something else -/
 def initStateFile (script data : List Byte) : State :=
   { inp := script, shared := false, data, fdFed := true }
+
+/-- `prepare_input`, `Source::Stdin`: "if the standard input is a FIFO or a terminal and is set to
+    non-blocking reads, then sh shall enable blocking reads on standard input".  Every later read of
+    the shell (`Concurrent::read` with its `TemporaryNonBlockingGuard`) switches the descriptor to
+    non-blocking for the duration of the read and restores the mode it found — so no operation of the
+    machine changes `nonblock`, and commands that are not part of the shell see what `prepare_input`
+    left. -/
+def prepareInput (fifo : Bool) (s : State) : State :=
+  if fifo then { s with nonblock := false } else s
+
+/-- `sh -s` with standard input a pipe inherited in the given mode -/
+def runPipe (inherited : Bool) (script : List Byte) : State × Outcome × List Iter :=
+  loop (script.length + 2) (prepareInput true { initState true script [] with nonblock := inherited }) []
 
 def runFile (script data : List Byte) : State × Outcome × List Iter :=
   loop (script.length + 2) (initStateFile script data) []
